@@ -19,6 +19,12 @@ pub struct P19 {
     pub amp: u64,
     pub decs: Vec<u8>,
     pub res: Vec<u128>,
+    /// create the pool with its denoms in reverse (non-alphabetical) order
+    #[serde(default)]
+    pub unsorted: bool,
+    /// after the first deposit, someone makes a dust deposit (1 unit of every asset) with liquidity_max_slippage = 1
+    #[serde(default)]
+    pub dust_deposit_with_tolerance: bool,
 }
 
 fn abs(x: &BigInt) -> BigInt {
@@ -45,12 +51,82 @@ pub fn exact_out_k(xs: &[BigInt], d: &BigInt, ann: &BigInt, oi: usize, ai: usize
     &xs[ai] - y
 }
 
-fn eval(w: &mut World, p: &P19, rec: &mut Rec) -> bool {
+/// Builds the pool of `p` (creation order and dust deposit as flagged) and returns, for two non-proportional second
+/// deposits (1/7 of the first / of the last reserve plus one unit of every other asset), the LP minted (None = refused).
+fn second_deposit_mints(w: &mut World, p: &P19) -> Option<Vec<Option<u128>>> {
     let cfg = cfg();
     restore_base(w, "c19", &cfg, |_| {});
     let n = p.decs.len();
     let dn: Vec<String> = DN[..n].iter().map(|s| s.to_string()).collect();
-    let mk = PuOp::CreatePool { u: OWNER, denoms: dn.clone(), decimals: p.decs.clone(), fees: zero_fees(), amp: Some(p.amp), id: Some("g".into()), funds: vec![("uom".into(), 8888), ("uusd".into(), 1000)] };
+    let (mut cdn, mut cdec) = (dn.clone(), p.decs.clone());
+    if p.unsorted {
+        cdn.reverse();
+        cdec.reverse();
+    }
+    let mk = PuOp::CreatePool { u: OWNER, denoms: cdn, decimals: cdec, fees: zero_fees(), amp: Some(p.amp), id: Some("g".into()), funds: vec![("uom".into(), 8888), ("uusd".into(), 1000)] };
+    if !apply(w, &mk).is_ok() {
+        return None;
+    }
+    let prov = |u: usize, funds: Vec<(String, u128)>, liq: Option<u64>| PuOp::Provide { u, pool: "o.g".into(), funds, lock: None, lock_id: None, recv: None, liq_slip: liq, swap_slip: None };
+    if !apply(w, &prov(OWNER, dn.iter().cloned().zip(p.res.iter().cloned()).collect(), None)).is_ok() {
+        return None;
+    }
+    if p.dust_deposit_with_tolerance && !apply(w, &prov(A, dn.iter().cloned().map(|d| (d, 1u128)).collect(), Some(10_000))).is_ok() {
+        return None;
+    }
+    let lp = w.lp("o.g");
+    let mid = w.snapshot();
+    let s0 = w.supply(&lp);
+    let mut out = vec![];
+    for which in [0usize, n - 1] {
+        w.restore(&mid);
+        let mut add: Vec<u128> = vec![1; n];
+        add[which] = p.res[which] / 7 + 1;
+        let o = apply(w, &prov(B, dn.iter().cloned().zip(add.iter().cloned()).collect(), None));
+        out.push(if o.is_ok() { Some(w.supply(&lp) - s0) } else { None });
+    }
+    Some(out)
+}
+
+fn eval(w: &mut World, p: &P19, rec: &mut Rec) -> bool {
+    // ---- creation order is immaterial: the pool created with its denoms reversed (and, when flagged, after the
+    // tolerance-carrying dust deposit) must mint what its alphabetically created twin mints for the same later deposits.
+    // Both use a D within 2 units of the same exact root, so the minted amounts may differ by the rounding of D only.
+    if p.unsorted {
+        let twin = P19 { unsorted: false, ..p.clone() };
+        let (a, b) = (second_deposit_mints(w, p), second_deposit_mints(w, &twin));
+        rec.count("c19_creation_order_twins");
+        match (a, b) {
+            (Some(a), Some(b)) => {
+                for (k, (x, y)) in a.iter().zip(b.iter()).enumerate() {
+                    let ok = match (x, y) {
+                        (Some(x), Some(y)) => {
+                            let (hi, lo) = (*x.max(y), *x.min(y));
+                            // 8 units of D at supply/D <= ~1 (zero-fee pools) plus a relative 1e-9 for 18-digit pools
+                            hi - lo <= 16 + hi / 1_000_000_000
+                        }
+                        (None, None) => true,
+                        _ => false,
+                    };
+                    if !ok {
+                        rec.viol("C19_mint_depends_on_creation_order", format!("amp={} dec={:?} res={:?} dust-deposit={}: second deposit #{k} minted {:?} on the pool created in reverse denom order, {:?} on the pool created in alphabetical order", p.amp, p.decs, p.res, p.dust_deposit_with_tolerance, x, y));
+                    }
+                }
+            }
+            (None, None) => {}
+            _ => rec.viol("C19_mint_depends_on_creation_order", format!("amp={} dec={:?} res={:?}: only one of the twins could be prepared", p.amp, p.decs, p.res)),
+        }
+    }
+    let cfg = cfg();
+    restore_base(w, "c19", &cfg, |_| {});
+    let n = p.decs.len();
+    let dn: Vec<String> = DN[..n].iter().map(|s| s.to_string()).collect();
+    let (mut cdn, mut cdec) = (dn.clone(), p.decs.clone());
+    if p.unsorted {
+        cdn.reverse();
+        cdec.reverse();
+    }
+    let mk = PuOp::CreatePool { u: OWNER, denoms: cdn, decimals: cdec, fees: zero_fees(), amp: Some(p.amp), id: Some("g".into()), funds: vec![("uom".into(), 8888), ("uusd".into(), 1000)] };
     if !apply(w, &mk).is_ok() {
         rec.viol("C19_setup", "pool creation refused".into());
         return false;
@@ -60,7 +136,7 @@ fn eval(w: &mut World, p: &P19, rec: &mut Rec) -> bool {
     let ann = BigInt::from(p.amp) * BigInt::from(n as u64);
     let d_exact = exact_d_floor(&xs, &ann);
     let unit = BigInt::from(10u32).pow(K);
-    let state = format!("amp={} dec={:?} res={:?}", p.amp, p.decs, p.res);
+    let state = format!("amp={} dec={:?} res={:?}{}{}", p.amp, p.decs, p.res, if p.unsorted { " created-unsorted" } else { "" }, if p.dust_deposit_with_tolerance { " +dust-deposit(tolerance 1)" } else { "" });
     // ---- D used for minting: the first deposit mints exactly D (supply after it)
     let s0 = w.snapshot();
     let dep = PuOp::Provide { u: OWNER, pool: "o.g".into(), funds: dn.iter().cloned().zip(p.res.iter().cloned()).collect(), lock: None, lock_id: None, recv: None, liq_slip: None, swap_slip: None };
@@ -81,6 +157,35 @@ fn eval(w: &mut World, p: &P19, rec: &mut Rec) -> bool {
         // |D_used - floor(D*)| > 2 smallest units
         rec.viol_kf("C19_mint_d_inexact", format!("{state} supply={supply}"), format!("{state}: first deposit minted a total supply (= D used) of {supply}, exact D is {} (difference {} units of 10^-{K})", &d_exact / &unit, diff));
     }
+    // ---- optionally: a dust deposit carrying a deposit tolerance (the only one a stableswap pool accepts is 1 on a
+    // deposit that leaves isqrt(D) unchanged); pricing afterwards is judged on the reserves the pool then reports
+    let mut p = p.clone();
+    if p.dust_deposit_with_tolerance {
+        let dust = PuOp::Provide { u: A, pool: "o.g".into(), funds: dn.iter().cloned().map(|d| (d, 1u128)).collect(), lock: None, lock_id: None, recv: None, liq_slip: Some(10_000), swap_slip: None };
+        let sd = w.snapshot();
+        let o = apply(w, &dust);
+        rec.outcome("DustDepositWithTolerance", o.class());
+        if !o.is_ok() {
+            if w.app.storage().data != sd.storage.data {
+                rec.viol("C19_refused_deposit_changed_state", state.clone());
+            }
+            return true;
+        }
+        rec.count("c19_dust_deposits_accepted");
+        let Some(pi) = observe_pool(w, "o.g") else { return false };
+        for (i, d) in dn.iter().enumerate() {
+            match pi.pool_info.assets.iter().find(|c| &c.denom == d) {
+                Some(c) => p.res[i] = c.amount.u128(),
+                None => {
+                    rec.viol("C19_setup", format!("{state}: reserve of {d} missing"));
+                    return false;
+                }
+            }
+        }
+    }
+    let p = &p;
+    let xs: Vec<BigInt> = p.res.iter().zip(&p.decs).map(|(r, d)| scale(*r, *d as u32, maxd, K)).collect();
+    let d_exact = exact_d_floor(&xs, &ann);
     // ---- quotes
     let pmaddr = w.pool_manager.clone();
     for oi in 0..n {
@@ -164,7 +269,13 @@ pub fn points(tier: Tier) -> Vec<P19> {
                             res.push(base * sk + if pos == 1 { 7 } else { 0 });
                         }
                         if ok && (pos == 0 || *skew > 1) {
-                            v.push(P19 { amp: *amp, decs: decs.clone(), res });
+                            v.push(P19 { amp: *amp, decs: decs.clone(), res: res.clone(), unsorted: false, dust_deposit_with_tolerance: false });
+                            // the same pool created in non-alphabetical order, with and without the re-sorting dust deposit
+                            if *skew <= 3 && (*amp == 100 || *amp == 1) {
+                                v.push(P19 { amp: *amp, decs: decs.clone(), res: res.clone(), unsorted: true, dust_deposit_with_tolerance: false });
+                                v.push(P19 { amp: *amp, decs: decs.clone(), res: res.clone(), unsorted: true, dust_deposit_with_tolerance: true });
+                                v.push(P19 { amp: *amp, decs: decs.clone(), res, unsorted: false, dust_deposit_with_tolerance: true });
+                            }
                         }
                     }
                 }
